@@ -28,7 +28,8 @@ Definition is_sp (e : mev) : bool := match e with MCore _ => false | _ => true e
 Definition mstate_matches (e : mev) (m : mstate) (sn : snap) : bool :=
   let d := s_db (m_core m) in
   set_eqb lrow_eqb (d_live d) (sn_live sn) && table_eqb (d_vt d) (sn_vt sn) &&
-  set_eqb arow_eqb (d_av d) (sn_av sn) && list_eqb Z.eqb (d_tx d) (sn_tx sn).
+  set_eqb arow_eqb (d_av d) (sn_av sn) && list_eqb Z.eqb (d_tx d) (sn_tx sn) &&
+  set_eqb chg_eqb (d_chg d) (sn_chg sn).
 
 Definition C06_corr (c : C06_case) : bool :=
   match c with
@@ -54,6 +55,37 @@ Fixpoint sp_walk (stack : list snap) (evs : list mev) (snaps : list snap) : bool
   | _, _ => false
   end.
 
+Fixpoint commits_ok (g : cfg) (evs : list mev) (snaps : list snap) : bool :=
+  match evs, snaps with
+  | e :: evs', sn :: snaps' =>
+      (match e with MCore Commit => C17_commit g (new_seg snap0 [] []) sn | _ => true end) && commits_ok g evs' snaps'
+  | _, _ => true
+  end.
+
+(* at every commit: every version row has its class recorded (the half of C17 that the open finding
+   below does not disturb: its stale operations can only add names, never lose one) *)
+Fixpoint commits_cover (g : cfg) (evs : list mev) (snaps : list snap) : bool :=
+  match evs, snaps with
+  | e :: evs', sn :: snaps' =>
+      (match e with
+       | MCore Commit =>
+           negb (g_changes g) ||
+           forallb (fun r => existsb (fun x => (vtx r =? fst x) && (tab_cls (vkey r) =? snd x)%nat) (sn_chg sn)) (sn_vt sn)
+       | _ => true end) && commits_cover g evs' snaps'
+  | _, _ => true
+  end.
+
+(* the same with the symptoms of the open finding ignored: the unit of work keeps the transaction
+   object and the version objects of the rolled-back flush, so later in the transaction (a) an
+   error is raised, (b) rows are stamped with the id of the rolled-back transaction record, (c) the
+   stale operations make the transaction-changes plugin record a name again *)
+Definition C06_prop_sp (c : C06_case) : bool :=
+  match c with
+  | C06_S g evs snaps exc later_error =>
+      negb exc && sp_walk [] evs snaps && commits_cover g evs snaps
+  | _ => false
+  end.
+
 Definition C06_prop (c : C06_case) : bool :=
   match c with
   | C06_F main before after_rb final ref_final reported fired =>
@@ -65,5 +97,8 @@ Definition C06_prop (c : C06_case) : bool :=
       snap_eqb final ref_final && C02_prop main
   | C06_S g evs snaps exc later_error =>
       negb exc && negb later_error && sp_walk [] evs snaps &&
-      forallb no_dangling snaps
+      forallb no_dangling snaps &&
+      (* what a rolled-back savepoint leaves behind must not distort the record of the transaction:
+         at every commit the recorded entity names are the classes with a version of that transaction *)
+      commits_ok g evs snaps
   end.
